@@ -523,7 +523,7 @@ fn parsed_extremes(acc: &mut Acc) {
                     continue;
                 }
             }
-            for base in 0..4 {
+            for base in 0..6 {
                 let mut q = Parsed::new();
                 let _ = f(&mut q, v);
                 // complete with consistent-looking other fields where still unset
@@ -548,6 +548,25 @@ fn parsed_extremes(acc: &mut Acc) {
                     2 => {
                         let _ = q.set_timestamp(MIN_DAY * 86400);
                         let _ = q.set_second(60);
+                        let _ = q.set_offset(0);
+                    }
+                    4 => {
+                        // no full year: the year has to be put together from century and two-digit year
+                        let _ = q.set_year_div_100(21_474_836);
+                        let _ = q.set_year_mod_100(99);
+                        let _ = q.set_month(1);
+                        let _ = q.set_day(1);
+                        let _ = q.set_hour(0);
+                        let _ = q.set_minute(0);
+                        let _ = q.set_offset(0);
+                    }
+                    5 => {
+                        let _ = q.set_isoyear_div_100(21_474_836);
+                        let _ = q.set_isoyear_mod_100(99);
+                        let _ = q.set_isoweek(1);
+                        let _ = q.set_weekday(Weekday::Mon);
+                        let _ = q.set_hour(0);
+                        let _ = q.set_minute(0);
                         let _ = q.set_offset(0);
                     }
                     _ => {
